@@ -133,7 +133,7 @@ PROPS.update({
         technique=TECH,
     ),
     "C11": dict(
-        contracts=["c11"], bounded=True, level="other",
+        contracts=["c11", "c10", "c05"], bounded=True, level="other",
         explanation="deductive: clause productions set exactly their key and leave every other key of the table untouched (effect + frame), pre_load_mods routing of declared fields vs table_properties; "
                     "BOUNDED deciding step: 41 clause kinds x table bodies x orders x {owning mode, sql}, metamorphic oracle (with clauses == without clauses + catalogue keys)",
         level_text="clause orthogonality is decided by a bounded metamorphic contract; the clause productions under contract are proved to write only their own key",
@@ -149,7 +149,7 @@ PROPS.update({
         technique=BTECH,
     ),
     "C19": dict(
-        contracts=["c19"], bounded=True, level="other",
+        contracts=["c19", "c12"], bounded=True, level="other",
         explanation="deductive: the CLI extension filter (exactly .sql .ddl .hql .bql by the last dot-separated segment); "
                     "BOUNDED deciding step: temp-dir runs of parse_from_file / dump / sdp CLI (17 encodings, file names with dots, target directories, flag combinations) against the in-memory API",
         level_text="file / dump / CLI agreement is decided by a bounded run-time contract in temporary directories; the pure extension filter is proved",
@@ -168,7 +168,7 @@ PROPS.update({
         technique=BTECH,
     ),
     "C10": dict(
-        contracts=["c10", "c16"], frames=["output-mode-not-read-before-output"], bounded=True, level="other",
+        contracts=["c10", "c16", "c12"], frames=["output-mode-not-read-before-output"], bounded=True, level="other",
         explanation="deductive: the output filter (filter_out_output / to_dict) keeps every field without exclusion metadata for every init_data and every mode, dialect fields pass only in their documented modes; "
                     "run() rejects exactly the unknown modes; frame: output_mode is not read before Output is built (parsed statements are mode independent); "
                     "BOUNDED deciding step: generated scripts and the corpus x 15 modes x flags compared with the default mode on common content",
@@ -177,7 +177,7 @@ PROPS.update({
         technique=BTECH,
     ),
     "C12": dict(
-        contracts=["c12", "c01", "c17"], bounded=True, level="other",
+        contracts=["c12", "c01", "c17", "c10", "c02"], bounded=True, level="other",
         explanation="deductive: every column value leaving p_defcolumn carries the eight documented keys with boolean unique / nullable, to_dict keeps the nine table keys in every mode, "
                     "run(json_dump=True) returns json.dumps of what it returns otherwise; BOUNDED deciding step: all generators and the corpus x modes x flags: shape, JSON round trip",
         level_text="shape invariants of the column and table skeleton are proved for the productions under contract; the whole-result shape and JSON-serialisability are decided by a bounded run-level contract",
@@ -185,7 +185,7 @@ PROPS.update({
         technique=BTECH,
     ),
     "C20": dict(
-        bounded=True, level="other", bounded_timeout=3000,
+        frames=["ply-cache-settings"], bounded=True, level="other", bounded_timeout=3000,
         explanation="no repository function computes the LALR tables (ply.yacc does); the property is stated as a run-time contract on Parser.__init__ "
                     "(tables in use == fresh generation from the declared grammar) and checked exhaustively over the property's finite cache-state space "
                     "{valid, missing, stale signature, older table version, genuinely older grammar, unwritable} with corpus + generated scripts in each state",
